@@ -17,6 +17,25 @@ def table_instance(rng, sizes, de, values, weights):
     return {"n": n, "sizes": sizes, "D": D, "de": de}
 
 
+def expected_candidates(inst):
+    """How many tuples the cut lets through, counted from the abstract table (the vacuity guard below must not depend on what
+    the code under test returns)."""
+    import itertools
+    n, sizes, D, de = inst["n"], inst["sizes"], inst["D"], inst["de"]
+    crit = (n * (n - 1) // 2) * de * n
+    count = 0
+    for t in itertools.product(*[range(s + 1) for s in sizes]):
+        if all(t[a] == sizes[a] for a in range(n)):
+            continue
+        cost = 0
+        for a in range(n):
+            for b in range(a + 1, n):
+                cost += de if (t[a] == sizes[a] or t[b] == sizes[b]) else D[a][b][t[a]][t[b]]
+        if cost <= crit:
+            count += 1
+    return count
+
+
 def growth_records(pa, rng, quick):
     # (sizes, delta_empty (x8), pair values in half delta_empty units, weights): mostly below the cut, some above
     # quick: 11 025 tuples (first growth at 10 000) and 22 801 tuples (growths at 10 000 and 15 000; > 20 000 candidates)
@@ -44,12 +63,13 @@ def growth_records(pa, rng, quick):
         al.compute_disorder(d)
         rec = ar.make_record(pa, c, d, al, inst["D"], de, G_SCALE, "cover", 1, search=False, band=0, with_recompute=False,
                              cands=(dis, tup), meta={"family": "growth", "sizes": sizes, "candidates": int(len(dis)),
+                                                     "expected_candidates": expected_candidates(inst),
                                                      "tuples": int(__import__("math").prod(s + 1 for s in sizes))})
         recs.append(rec)
     need = [10000, 15000, 20000] if quick else [10000, 15000, 20000, 22500]
-    top = max(r["_meta"]["candidates"] for r in recs)
+    top = max(r["_meta"]["expected_candidates"] for r in recs)
     for b in need:
-        if not any(r["_meta"]["candidates"] > b for r in recs):
+        if not any(r["_meta"]["expected_candidates"] > b for r in recs):
             from .common import MachineryError
             raise MachineryError(f"growth instances do not cross the {b} boundary (max {top})")
     return recs
